@@ -172,7 +172,10 @@ def nbs_bct(x, y, thresh, k=1000, tail='both', paired=False, verbose=False, seed
         workers = multiprocessing.cpu_count()
 
     pool = multiprocessing.Pool(workers)
-    perm_args = [(seed, u, xmat, ymat, thresh, tail, paired, m, n, ixes, nx, ny, verbose, null, max_sz, hit, k) for u in range(k)]
+    # one independent integer seed per permutation, drawn from the single generator the caller's seed denotes
+    # (an int seed and RandomState(seed) then agree, and the result no longer depends on workers / chunking)
+    perm_seeds = get_rng(seed).randint(2**31 - 1, size=k)
+    perm_args = [(int(perm_seeds[u]), u, xmat, ymat, thresh, tail, paired, m, n, ixes, nx, ny, verbose, null, max_sz, hit, k) for u in range(k)]
 
     # Parallelize permutation
     null_dist = pool.map(_permutation, perm_args)
